@@ -16,6 +16,25 @@ TEXT = ("Q1 (effect analysis): the transitive write-effect summary of meld conta
         "decide 'read before = read after' as a value equality for commit, snapshots, or no-op refresh / reload.")
 TRUSTED = ["rustc nightly MIR", "effect summaries over the resolved call graph (closures, dyn Adapter fan-out)", "C07/V2"]
 
+def _own_data_guard(r, b, m):
+    """receiver derives from the write guard on *self*.data taken in meld (closures see it as a captured variable)"""
+    def is_guard_term(t):
+        for x in walk(t):
+            if x[0] == "call" and x[4] is not None and x[4].path == "std::sync::RwLock::<T>::write":
+                a = x[2][0]
+                if any(y[0] == "field" and y[2] == "data" for y in walk(a)) and any(y[0] == "param" and y[1] == 1 for y in walk(a)):
+                    return True
+        return False
+    if b is m:
+        return is_guard_term(r)
+    for x in walk(r):
+        if x[0] == "upvar":
+            for i, l in enumerate(m.locals):
+                if l.get("name") == x[2] and is_guard_term(du_of(m).local_term(i, 16)):
+                    return True
+    return False
+
+
 CACHES = {("datastorage::DataStorage", "cache"), ("melda::Melda", "array_descriptors_cache")}
 
 
@@ -50,7 +69,7 @@ def run(facts, res):
                 c = t.callee
                 if c is not None and c.impl_self == "datastorage::DataStorage" and t.args:
                     r = arg_term(b, t, 0, 20)
-                    if any(x[0] in ("var", "upvar") and x[2] == "data_w" for x in walk(r)):
+                    if _own_data_guard(r, b, m):
                         names.add(c.name)
         res.instance("Q1", "DataStorage methods meld calls through its write guard: %s" % sorted(names), m.loc())
         extra = names - {"list_raw_items", "write_raw_item", "applied_packs"}
